@@ -529,4 +529,81 @@ def _handle_expr(e, tainted) -> bool:
             return False
 
 
-RULES = [rule_gate, rule_guard, rule_who, rule_open, rule_reader]
+def rule_repack(ctx) -> RuleResult:
+    res = RuleResult(
+        "C10.REPACK",
+        "C10",
+        "everything Workspace.close does to the file besides closing the handle — the final saves and the h5repack "
+        "rewrite (subprocess, unlink, move) — is conditional on the handle having been opened writable",
+        floor=2,
+    )
+    p = ctx.p
+    cl = p.func("Workspace.close")
+    mode_names = {a.targets[0].id for a in ast.walk(cl.node) if isinstance(a, ast.Assign) and isinstance(a.targets[0], ast.Name)
+                  and "mode in" in unparse(a.value) and "'r+'" in unparse(a.value)}
+
+    def writable_test(t) -> bool:
+        for x in ast.walk(t):
+            if isinstance(x, ast.Compare) and "mode" in unparse(x.left) and isinstance(x.ops[0], ast.In) and "'r+'" in unparse(x.comparators[0]):
+                return True
+            if isinstance(x, ast.Name) and x.id in mode_names:
+                # only as a conjunct (not under `not` / `or`)
+                return True
+        return False
+
+    def positive(t) -> bool:
+        """the writable condition is a conjunct of the test (so the body runs only when writable)"""
+        if isinstance(t, ast.BoolOp) and isinstance(t.op, ast.And):
+            return any(positive(v) for v in t.values)
+        if isinstance(t, (ast.Compare, ast.Name)):
+            return writable_test(t)
+        return False
+
+    effects = []
+    for n in ast.walk(cl.node):
+        if isinstance(n, ast.Call):
+            f = unparse(n.func)
+            if f in ("subprocess.run", "subprocess.call", "subprocess.check_call", "shutil.move", "os.replace", "os.remove") or f.endswith(".unlink") \
+                    or (isinstance(n.func, ast.Attribute) and n.func.attr in ("_io_call", "update_attribute") and "H5Reader" not in unparse(n)):
+                effects.append(n)
+    if len(effects) < 2:
+        raise AnalysisError("Workspace.close: save / repack effects not found")
+
+    def ancestors_ifs(target):
+        out = []
+
+        def rec(stmts, stack):
+            for s_ in stmts:
+                if any(x is target for x in ast.walk(s_)):
+                    if isinstance(s_, ast.If):
+                        inb = any(x is target for b in s_.body for x in ast.walk(b))
+                        if any(x is target for x in ast.walk(s_.test)):
+                            out.extend(stack)
+                            return True
+                        return rec(s_.body if inb else s_.orelse, stack + [(s_.test, inb)])
+                    for fld in ("body", "orelse", "finalbody"):
+                        blk = getattr(s_, fld, None)
+                        if isinstance(blk, list) and blk and any(x is target for b in blk if isinstance(b, ast.AST) for x in ast.walk(b)):
+                            return rec(blk, stack)
+                    for h in getattr(s_, "handlers", []):
+                        if any(x is target for x in ast.walk(h)):
+                            return rec(h.body, stack)
+                    out.extend(stack)
+                    return True
+            return False
+
+        rec(cl.node.body, [])
+        return out
+
+    for e in effects:
+        ifs = ancestors_ifs(e)
+        ok = any(inb and positive(t) for t, inb in ifs)
+        res.inst(f"Workspace.close:{e.lineno} {unparse(e.func)}(...) only when the handle is writable", nontrivial=True, ok=ok)
+        if not ok:
+            res.find("Workspace", "close", f"{unparse(e.func)}(...) runs whatever the mode of the handle", f"{cl.module.relpath}:{e.lineno}",
+                     "closing a workspace that was opened read-only rewrites the file (a pending repack flag, set in memory by a refused edit "
+                     "of a concatenated entity, is enough): the bytes of a file opened 'r' change")
+    return res
+
+
+RULES = [rule_gate, rule_guard, rule_who, rule_open, rule_reader, rule_repack]
